@@ -448,7 +448,11 @@ fn main() {
 		gen_lines(&mut rng, n, &mut lines);
 	}
 	for l in &lines {
-		do_case(&mut out, l);
+		// building params never panics (C20): a panic anywhere in a case is that case's failure, not the harness's
+		let before = out.ops.len();
+		if std::panic::catch_unwind(std::panic::AssertUnwindSafe(|| do_case(&mut out, l))).is_err() && out.ops.len() == before {
+			out.line(l.clone(), "#skip PANIC".into(), Err("the builder / conversion panicked on this case".into()), true);
+		}
 	}
 	out.write(&a.out);
 	if a.replay.is_some() {
